@@ -348,6 +348,11 @@ func (fv *FnV) doInstr(st *State, ins ssa.Instruction) error {
 	case *ssa.TypeAssert:
 		x := fv.val(ins.X).v.T
 		is := g.isType(x, ins.AssertedType)
+		if _, isFn := types.Unalias(ins.AssertedType).Underlying().(*types.Signature); isFn {
+			// assumption: a function value stored in a document (a CTE thunk) or handed over as `any` is not a nil func
+			fv.assume(st, implies(is, not(eq(g.unbox(fv.c, x, ins.AssertedType), "nil!ref"))))
+			fv.g.abstracted["assumed: function values held in interface values are non-nil"]++
+		}
 		if ins.CommaOk {
 			ok := fv.c.Define(ins.Name()+"!ok", sBool, is)
 			v := ite(ok, g.unbox(fv.c, x, ins.AssertedType), g.zero(ins.AssertedType))
@@ -479,6 +484,14 @@ func (fv *FnV) doUnOp(st *State, ins *ssa.UnOp) error {
 				fv.assume(st, not(eq(v, "nil!ref")))
 				fv.g.abstracted["assumed: elements of AST node lists are non-nil (parser output)"]++
 			}
+			if pt, ok := types.Unalias(t).Underlying().(*types.Pointer); ok && (strings.HasSuffix(pt.Elem().String(), "genql.IndexSelector") || strings.HasSuffix(pt.Elem().String(), "genql.PipeSelector")) {
+				fv.assume(st, not(eq(v, "nil!ref")))
+				fv.g.abstracted["assumed: parsed selector lists ([]*IndexSelector, []*PipeSelector) contain no nil entry (they are built by ParseArray/ParsePipe)"]++
+			}
+		}
+		if gl, ok := ins.X.(*ssa.Global); ok && g.sortOf(t) == sRef && g.globalSetNonNilOnce(gl) {
+			// the variable is assigned exactly once, in init, a freshly made map / compiled pattern: it is non-nil ever after
+			fv.assume(st, not(eq(v, "nil!ref")))
 		}
 		fv.vals[ins] = fv.fromTerm(v, t)
 		fv.markGuarded(ins, ins.X)
@@ -861,6 +874,10 @@ func (fv *FnV) doLookup(st *State, ins *ssa.Lookup) error {
 		has := fv.c.Define(ins.Name()+"!has", sBool, fv.mapHas(st, xt, m, k))
 		v := fv.c.Define(ins.Name()+"!v", g.sortOf(xt.Elem()), ite(has, fv.mapGet(st, xt, m, k), g.zero(xt.Elem())))
 		fv.assume(st, fv.wf(v, xt.Elem(), st.now))
+		if _, isFn := types.Unalias(xt.Elem()).Underlying().(*types.Signature); isFn {
+			fv.assume(st, implies(has, not(eq(v, "nil!ref"))))
+			fv.g.abstracted["assumed: functions registered in the function tables are non-nil"]++
+		}
 		vv := fv.fromTerm(v, xt.Elem())
 		if ins.CommaOk {
 			fv.vals[ins] = &SV{tup: []SV{*vv, {v: Val{has, sBool}, typ: types.Typ[types.Bool]}}, typ: ins.Type()}
@@ -1081,7 +1098,62 @@ func (fv *FnV) autoInvariants(li *loopInfo) []func(*FnV) string {
 			return and("(bvsle #xffffffffffffffff "+pv+")", "(bvslt "+pv+" (bvadd "+l+" #x0000000000000001))", "(bvsle "+pv+" (bvsub "+l+" #x0000000000000001))", "(bvsle #x0000000000000000 "+l+")")
 		})
 	}
+	// accumulators: a slice that starts out freshly made (or nil) and is only ever replaced by append(itself, ...)
+	// keeps a backing array allocated by this activation
+	for _, ins := range li.header.Instrs {
+		phi, ok := ins.(*ssa.Phi)
+		if !ok {
+			continue
+		}
+		if _, isSlice := phi.Type().Underlying().(*types.Slice); !isSlice {
+			continue
+		}
+		if !accumulates(phi, phi, map[ssa.Value]bool{}) {
+			continue
+		}
+		p := phi
+		out = append(out, func(fv *FnV) string {
+			fv.bornFn()
+			pv := fv.val(p).v.T
+			return or(eq("(s!cap "+pv+")", bvLit(0, 64)), "(>= (birth (s!ref "+pv+")) "+fv.now0+")")
+		})
+	}
 	return out
+}
+
+// accumulates: v is the accumulator phi itself, a freshly made or nil slice, or an append to / a reslice of such a value.
+func accumulates(v ssa.Value, acc *ssa.Phi, seen map[ssa.Value]bool) bool {
+	if seen[v] {
+		return true
+	}
+	seen[v] = true
+	switch x := v.(type) {
+	case *ssa.Phi:
+		for _, e := range x.Edges {
+			if !accumulates(e, acc, seen) {
+				return false
+			}
+		}
+		return true
+	case *ssa.MakeSlice:
+		return true
+	case *ssa.Const:
+		return x.Value == nil
+	case *ssa.Slice:
+		if a, ok := x.X.(*ssa.Alloc); ok {
+			_ = a
+			return true
+		}
+		if _, ok := x.X.Type().Underlying().(*types.Slice); ok {
+			return accumulates(x.X, acc, seen)
+		}
+		return false
+	case *ssa.Call:
+		if b, ok := x.Common().Value.(*ssa.Builtin); ok && b.Name() == "append" {
+			return accumulates(x.Common().Args[0], acc, seen)
+		}
+	}
+	return false
 }
 
 // rangeForm: the loop is a `for ... range X` over the slice named in the clause, i.e. it visits positions 0, 1, 2, ... in that order.
